@@ -354,6 +354,11 @@ func (tree *Rtree) Delete(obj geom.Geom) bool {
 		tree.root.parent = nil
 		tree.height--
 	}
+	if !tree.root.leaf && len(tree.root.entries) == 0 {
+		// The last object is gone: start over with an empty leaf root.
+		tree.root = &node{leaf: true, level: 1, entries: make([]entry, 0, tree.MaxChildren)}
+		tree.height = 1
+	}
 
 	return true
 }
